@@ -204,10 +204,17 @@ def build(path, cfg, r):
     con.execute("CREATE TABLE zempty (a, b)")
     tables["zempty"] = (["a", "b"], False)
 
+    # a four-byte cell (a single NULL: 02 01 02 00) inserted first, so that it sits in the last four bytes of the page; it is
+    # deleted at the very end while its neighbours stay: a minimal freeblock that ends exactly at the page end
+    con.execute("CREATE TABLE fbend (a)")
+    tables["fbend"] = (["a"], False)
+    for v in (None, 1000, "xy", 2.5, None):
+        con.execute("INSERT INTO fbend VALUES (?)", (v,))
+
     def insert_rows(n):
         con.execute("BEGIN")
         for name, (names, alias) in tables.items():
-            if name in ("log0", "zempty", "tb"):
+            if name in ("log0", "zempty", "tb", "fbend"):
                 continue
             for _ in range(n):
                 vals = [rand_value(r, ps, big=cfg["big_values"] and name != "wide") for _ in names]
@@ -237,7 +244,7 @@ def build(path, cfg, r):
     for _ in range(cfg["churn"]):
         con.execute("BEGIN")
         for name, (names, alias) in tables.items():
-            if name == "log0":
+            if name in ("log0", "fbend"):
                 continue
             ids = [x[0] for x in con.execute(f"SELECT rowid FROM {name}")]
             r.shuffle(ids)
@@ -262,6 +269,8 @@ def build(path, cfg, r):
             tables.pop(victim)
             for iname in [i for i, (t, _) in indexes.items() if t == victim]:
                 indexes.pop(iname)
+    if "fbend" in tables:
+        con.execute("DELETE FROM fbend WHERE rowid = 1")
     con.close()
     return Built(path, cfg, tables, indexes, wr)
 
